@@ -44,7 +44,8 @@ def generalise(fields):
             out.add("wallet")
             continue
         keep = [p for p in parts if not any(ch.isdigit() for ch in p) or p in ("p0", "p1")]
-        out.add(".".join(keep[:3]))
+        leaf = keep[-1] if keep[-1] in ("liq", "p0", "p1", "base", "collateral", "transferred", "asks", "bids") else None
+        out.add(".".join(keep[:2] + ([leaf] if leaf and len(keep) > 2 else [])))
     return ",".join(sorted(out))
 
 
